@@ -94,6 +94,16 @@ def e1_configs(tier):
     if not q:
         for mode in ('both', 'cbr'):
             add('R256odd', mode, 37, 23, 256, 0.5, 2, 0, ragged=1)
+    # D2: per-short-block budgets BELOW ONE BYTE (e.g. 1 kbps at 32 kHz = 4 bits per 128-sample hop): every non-empty packet overshoots
+    #     the block's budget; the alphabet's smallest non-zero blobs are 1 and 2 bytes, the fix-point covers arbitrarily long short-block runs
+    for hi, lo in ((1, 1), (4, 2), (7, 3)):
+        for mode in MODES:
+            for R in ((64, 256) if q else (8, 64, 256)):
+                if R == 256 and mode in ('both', 'cbr') and (q or hi != 4):
+                    continue                                   # dense lattice (gcd 1): ~10^6 states each; thorough keeps (4,2) only
+                for bias in ((0, 1) if q else BIAS):
+                    for spl in ((2, 8) if q else SPL):
+                        add('subbyte', mode, hi, lo, R, bias, spl, -1 if (q and mode in ('both', 'cbr')) else 0, ragged=int(hi == 7))
     # E: average tracking on top (avg_reservoir unbounded => depth-bounded).  Two passes: wider alphabet / shallow, minimal alphabet / deep
     for mode in MODES:
         for R in (64, 256, 1000):
@@ -160,6 +170,36 @@ def e2_cases(tier):
     return out
 
 
+def e2_lowmax(tier):
+    """Hard maxima so low that a SHORT block's budget is below one byte, on click trains (sustained short-block runs)."""
+    out = []
+    q = (tier == 'quick')
+    for (rate, ch, tmpl) in ((32000, 1, 64), (44100, 1, 64)):
+        for mx in (1, 2):
+            for res in ('b256', '0.25'):
+                for bias in ('0', '0.5', '1'):
+                    for sig in (('clk', 'imp', 'noise') if q else ('clk', 'imp', 'noise', 'alt', 'mix')):
+                        out.append((dict(rate=rate, ch=ch, set='lowmax', mode='max', max=mx, min=0, avg=0, res=res, bias=bias, sig=sig),
+                                    f"e2e {rate} {ch} {tmpl} {mx} 0 0 {res} {bias} {sig} {rate * (2 if q else 4)}"))
+    return out
+
+
+def e2_plain(tier):
+    """PLAIN one-call set-ups without any ctl: vorbis_encode_init / vorbis_encode_setup_managed+setup_init with (max,-1|0,-1),
+    (-1,-1|0,min), (max,-1|0,min); reservoir = whatever OV_ECTL_RATEMANAGE2_GET reports."""
+    out = []
+    q = (tier == 'quick')
+    for (rate, ch), (tmpl, n, sets) in sorted(E2_LIMITS.items()):
+        mx, mn = sets['loose']['both']
+        for api in ('e2init', 'e2setup'):
+            for nominal in (-1, 0):
+                for mode, (a, b) in (('max', (mx, 0)), ('min', (0, mn)), ('both', (mx, mn))):
+                    for sig in (('qts', 'sil', 'noise', 'alt') if q else ('qts', 'sil', 'noise', 'alt', 'imp', 'mix')):
+                        out.append((dict(rate=rate, ch=ch, set='plain', plain=api, mode=mode, max=a, min=b, avg=0, res='d', bias='d', sig=sig),
+                                    f"{api} {rate} {ch} {nominal} {a} {b} 0 d d {sig} {n if q else 2 * n}"))
+    return out
+
+
 def e2_requests(tier):
     """Out-of-range / degenerate values REQUESTED through the real OV_ECTL_RATEMANAGE2_SET (the property quantifies over whatever
     the control interface accepts).  Refused requests are counted; accepted ones are encoded and judged like any other case."""
@@ -206,7 +246,7 @@ def run(tier):
 
     # ------------------------------------------------------------------ E2 first (short), then E1
     parts = os.environ.get('C14_PARTS', 'e1,e2').split(',')    # debugging aid only; a partial run is reported as non-exhaustive
-    e2a = e2_cases(tier) if 'e2' in parts else []
+    e2a = (e2_cases(tier) + e2_lowmax(tier) + e2_plain(tier)) if 'e2' in parts else []
     e2b = e2_requests(tier) if 'e2' in parts else []
     e2 = e2a + e2b
     # request cases get a short CPU watchdog: an accepted nonsense value (NaN / infinite fill level) may make the manager pad without end
@@ -256,7 +296,7 @@ def run(tier):
             kind = d.get('kind', '')
             if kind.startswith('limit_not_installed_'):
                 # a configured hard limit / reservoir never reached the rate manager
-                chk.violation(f"e2:limit_not_installed:{kind[len('limit_not_installed_'):]}", f"real managed encode [{line}]: {d.get('detail')}; run oracle against the configured limits: {d.get('run_oracle')} {d.get('run_detail', '')}", {'part': 'e2', 'case': line})
+                chk.violation(f"e2:{'plain_setup:' if 'plain' in meta else ''}limit_not_installed:{kind[len('limit_not_installed_'):]}", f"real managed encode [{line}]: {d.get('detail')}; run oracle against the configured limits: {d.get('run_oracle')} {d.get('run_detail', '')}", {'part': 'e2', 'case': line})
                 if d.get('run_oracle', 'none') != 'none':
                     chk.violation(f"e2:{d['run_oracle']}:{meta['mode']}:{meta['rate']}", f"real managed encode [{line}] judged against the CONFIGURED limits: {d.get('run_detail')}", {'part': 'e2', 'case': line})
             else:
@@ -340,7 +380,8 @@ def run(tier):
                 'vorbis_bitrate_flushpacket on 15 real oggpack buffers whose byte counts come from a per-block-type alphabet (affine ramps a+b*i, constants, cliffs, in richer levels descending ramps); '
                 'configurations without average tracking run to a fix-point (fix=1), with average tracking to the stated depth / transition cap (fix=0, why=depthcap|cap); '
                 'distinct_nontrivial = number of distinct (configuration, state) pairs whose reservoir differs from its initial fill (the limiter has acted). '
-                'E2: real managed encodes (4 limit modes x loose/tight limits x 3 reservoirs x 3 biases x 2 rates x 2 channel counts x signals), every contiguous packet run judged (e2.runs).',
+                'E2: real managed encodes (4 limit modes x loose/tight limits x 3 reservoirs x 3 biases x 2 rates x 2 channel counts x signals; hard maxima of 1-2 kbps (sub-byte short-block budgets) on click trains; '
+                'plain vorbis_encode_init / setup_managed+setup_init set-ups without ctl; out-of-range requests through RATEMANAGE2_SET), every contiguous packet run judged (e2.runs).',
     })
     chk.assumptions += [
         'slack s = 14 bits on E+/E-: packets are whole bytes; truncation floors the allowance to a byte, padding ceils the demand to a byte (<=7 bits each), and a run can start after one and end after the other. '
